@@ -41,7 +41,7 @@ for patch in "$HERE"/selftest/mutants/*.patch "$HERE"/seeded/*/patch.diff; do
   fi
   if (cd "$WORK" && go build ./... >/dev/null 2>&1 && go test -vet=off -count=1 ./... >"$ROOT/suite.log" 2>&1); then suite=pass; else suite=FAIL; fi
   props="$expected"
-  [ $ALL -eq 1 ] || [ -z "$props" ] && props="$ALLPROPS"
+  if [ $ALL -eq 1 ] || [ -z "$props" ] || [ "$props" = NONE ]; then props="$ALLPROPS"; fi
   fired=""
   for p in ${props//,/ }; do
     VERIF_ROOT="$ROOT" VERIF_REPO="$WORK" "$HERE/run.sh" "$p" quick > "$ROOT/$name-$p.log" 2>&1; e=$?
@@ -51,6 +51,7 @@ for patch in "$HERE"/selftest/mutants/*.patch "$HERE"/seeded/*/patch.diff; do
   verdict="MISSED"
   for p in ${expected//,/ }; do case " $fired " in *" $p "*) verdict="caught";; esac; done
   [ -z "$expected" ] && verdict="-"
+  if [ "$expected" = NONE ]; then if [ -z "$fired" ]; then verdict="silent-ok"; else verdict="FALSE-ALARM"; fi; fi
   printf "%-58s %-6s %-14s %s  [%s]\n" "$name" "$suite" "$expected" "${fired:- none}" "$verdict"
   [ -z "$PAT" ] && [ $ALL -eq 1 ] && printf "%s\t%s\t%s\t%s\t%s\n" "$name" "$suite" "$expected" "${fired# }" "$verdict" >> "$OUT.new"
 done
